@@ -60,7 +60,9 @@ type genS1 struct {
 	F      interface{} `json:"f"`
 }
 
-var specialStrings = []string{"", "plain", "with \"quotes\" and \\backslash", "ctl\x00\x01\x1f\n\t\r", "bad-utf8-\xff\xfe-\xc3", "unicode-é世界\U0001F600", "<html>&amp;", "  ", strings.Repeat("long", 60)}
+var specialStrings = []string{"", "plain", "with \"quotes\" and \\backslash", "ctl\x00\x01\x1f\n\t\r", "bad-utf8-\xff\xfe-\xc3", "unicode-é世界\U0001F600", "<html>&amp;", "  ", strings.Repeat("long", 60),
+	// text that LOOKS like the escapes a JSON encoder emits (a regular expression, a Windows path): it is data
+	`^\u003cdiv\u003e \u0026 \n \"`, `C:\users\u2028`}
 
 // genValue returns a value and whether encoding/json can encode it.
 func genValue(d *drawRec, depth int) (interface{}, bool) {
@@ -224,7 +226,7 @@ func decodeJSON(b []byte) (interface{}, error) {
 	return v, err
 }
 
-var specialTypes = []string{"plain", "with space", "quote\"back\\slash", "ctl\x01\n", "unicode-é世", "<a>&", ""}
+var specialTypes = []string{"plain", "with space", "quote\"back\\slash", "ctl\x01\n", "unicode-é世", "<a>&", "", `re:\u003ca\u003e`}
 
 // timeRepresentable: has the instant an RFC 3339 form (what JSON uses for a time)?
 func timeRepresentable(t time.Time) bool {
@@ -832,6 +834,30 @@ func runCloudEvents(rc *RunCtx) {
 		}()
 		for i := 0; i < n; i++ {
 			tp.Mark()
+			if i > 0 && tp.Choose(8, "reconfigure") == 0 {
+				// the exported configuration is changed on the live node (a configuration reload): every event
+				// is judged against the configuration in force when it is processed
+				srcMode = tp.Choose(6, "source")
+				switch srcMode {
+				case 0:
+					ff.Source = nil
+				case 1:
+					ff.Source = &url.URL{}
+				default:
+					ff.Source, _ = url.Parse("https://example.com/src2?c=d")
+				}
+				schemaMode = tp.Choose(5, "schema")
+				switch schemaMode {
+				case 2:
+					ff.Schema = &url.URL{}
+				case 3, 4:
+					ff.Schema, _ = url.Parse("https://example.com/schema2.json")
+				default:
+					ff.Schema = nil
+				}
+				validCfg = srcMode >= 2 && schemaMode != 2 && fmtMode != 3
+				simrt.Probe("ce.reconfigured")
+			}
 			typ := []string{"signed-type", "plain-type", "other-signed", "signed-type2", "audit-login", "audit-*", "other"}[tp.Choose(7, "type")]
 			if tp.Choose(16, "empty-type") == 0 {
 				typ = "" // a cloudevent without a type cannot be conformant: the event has to be rejected
